@@ -12,14 +12,17 @@ use serde_json::{json, Value};
 pub struct CompatCase {
     pub doc: DocCase,
     pub target: usize,
+    /// multi-file variant: another file (a package of its own) is loaded first, so that elements of another file
+    /// precede the checked file's elements under the shared parents
+    pub other_first: bool,
 }
 
 impl CompatCase {
     fn to_json(&self) -> Value {
-        json!({"kind": "compat", "doc": self.doc.to_json(), "target_vi": self.target})
+        json!({"kind": "compat", "doc": self.doc.to_json(), "target_vi": self.target, "other_first": self.other_first})
     }
     fn from_json(v: &Value) -> Option<CompatCase> {
-        Some(CompatCase { doc: DocCase::from_json(&v["doc"])?, target: v["target_vi"].as_u64()? as usize })
+        Some(CompatCase { doc: DocCase::from_json(&v["doc"])?, target: v["target_vi"].as_u64()? as usize, other_first: v["other_first"].as_bool().unwrap_or(false) })
     }
 }
 
@@ -52,6 +55,15 @@ pub fn run_case(c: &CompatCase, st: &mut Stats) -> Result<(), Failure> {
     st.eval();
     let fail = |sig: &str, msg: String| Failure::new(sig, format!("{msg}\n--- document ({:?}, target {:?}) ---\n{}", v, t, String::from_utf8_lossy(&bytes_v[..bytes_v.len().min(2500)])), c.to_json());
     let m = AutosarModel::new();
+    if c.other_first {
+        // a second file of the same version holding packages of its own (names that sort before and after the generated ones)
+        let other = format!("{}<AR-PACKAGES><AR-PACKAGE><SHORT-NAME>A0_other</SHORT-NAME><ELEMENTS><SYSTEM-SIGNAL><SHORT-NAME>s</SHORT-NAME></SYSTEM-SIGNAL></ELEMENTS></AR-PACKAGE><AR-PACKAGE><SHORT-NAME>zz_other</SHORT-NAME></AR-PACKAGE></AR-PACKAGES></AUTOSAR>", hdr(v));
+        if m.load_buffer(other.as_bytes(), "other.arxml", true).is_err() {
+            st.class("other-file-not-loadable-in-this-version");
+            return Ok(());
+        }
+        st.class("multi-file");
+    }
     let (file, _) = match m.load_buffer(&bytes_v, "v.arxml", true) {
         Ok(x) => x,
         Err(e) => {
@@ -108,7 +120,25 @@ pub fn run_case(c: &CompatCase, st: &mut Stats) -> Result<(), Failure> {
         return Err(fail(if strict_ok { "compat:mask-excludes-valid-target" } else { "compat:mask-contains-invalid-target" }, format!("returned mask {:#x} {} the target bit {:#x}, strict validation of the relabelled content: {}", mask, if mask & tbit != 0 { "contains" } else { "lacks" }, tbit, strict_err.clone().unwrap_or("ok".into()))));
     }
     // set_version
-    let before = extract_model(&m);
+    let view = |f: &ArxmlFile| -> ANode {
+        // the checked file's own content (loaded on its own from its text)
+        let t = f.serialize().unwrap_or_default();
+        let mm = AutosarModel::new();
+        let _ = mm.load_buffer(t.as_bytes(), "view.arxml", false);
+        // element types depend on the version the text is loaded as: compare names, values, attributes, comments only
+        fn strip(n: &mut ANode) {
+            n.etype = autosar_data_specification::ElementType::ROOT;
+            for c in &mut n.content {
+                if let AContent::Elem(e) = c {
+                    strip(e);
+                }
+            }
+        }
+        let mut x = extract_model(&mm);
+        strip(&mut x);
+        x
+    };
+    let before = if c.other_first { view(&file) } else { extract_model(&m) };
     let text_before = file.serialize().unwrap_or_default();
     match file.set_version(t) {
         Ok(()) => {
@@ -118,7 +148,7 @@ pub fn run_case(c: &CompatCase, st: &mut Stats) -> Result<(), Failure> {
             if file.version() != t {
                 return Err(fail("set_version:version-not-changed", format!("version() = {:?}", file.version())));
             }
-            let after = extract_model(&m);
+            let after = if c.other_first { view(&file) } else { extract_model(&m) };
             if let Some(d) = before.diff(&after, "") {
                 return Err(fail("set_version:content-changed", format!("set_version changed content: {d}")));
             }
@@ -137,7 +167,7 @@ pub fn run_case(c: &CompatCase, st: &mut Stats) -> Result<(), Failure> {
             if strict_ok {
                 return Err(fail("set_version:rejects-valid-target", format!("set_version({:?}) failed although the relabelled content passes strict validation", t)));
             }
-            let after = extract_model(&m);
+            let after = if c.other_first { view(&file) } else { extract_model(&m) };
             if before.diff(&after, "").is_some() || file.version() != v || file.serialize().unwrap_or_default() != text_before {
                 return Err(fail("set_version:failed-but-changed", "a failed set_version changed the file".into()));
             }
@@ -162,15 +192,15 @@ pub fn run(ctx: &Ctx) {
         ctx.merge(st);
     }
     let cases = ctx.tier.pick(8_000u64, 400_000u64);
-    let strat = (0..NVER, any::<u32>(), proptest::collection::vec(any::<u32>(), 0..80), 0..NVER, any::<bool>());
+    let strat = (0..NVER, any::<u32>(), proptest::collection::vec(any::<u32>(), 0..80), 0..NVER, any::<bool>(), any::<bool>());
     let reach: Vec<Vec<usize>> = (0..NVER).map(crate::c01::reachable).collect();
-    run_prop(ctx, "compat", cases, strat, |(vi, tsel, tape, target, any_type), st| {
+    run_prop(ctx, "compat", cases, strat, |(vi, tsel, tape, target, any_type, other_first), st| {
         let pool = if *any_type || sens[*vi].is_empty() { &reach[*vi] } else { &sens[*vi] };
         let tid = pool[((*tsel as u64 * pool.len() as u64) >> 32) as usize];
         // make optional content likely: prepend a few "yes" cells
         let mut t2 = vec![u32::MAX; 3];
         t2.extend_from_slice(tape);
-        let c = CompatCase { doc: DocCase { vi: *vi, target: tid, tape: t2, style: vec![], budget: 14, plain: true }, target: *target };
+        let c = CompatCase { doc: DocCase { vi: *vi, target: tid, tape: t2, style: vec![], budget: 14, plain: true }, target: *target, other_first: *other_first };
         match run_case(&c, st) {
             Ok(()) => Outcome::Pass,
             Err(f) => {
